@@ -8,12 +8,14 @@ LEVEL_TEXT = ('bounded symbolic execution (CrossHair/z3) of installify for every
               'ninja_install_rule on a real Environment with the install prefix and DESTDIR symbolic: '
               'the emitted install / uninstall recipes, evaluated by the Make / Ninja + sh reference '
               'models, hand the copy tool exactly DESTDIR + directory + suffix and remove exactly '
-              'that path')
+              'that path; a header directory with files in nested subdirectories (uninstall removes '
+              'exactly what the install command creates); patchelf.post_install over every sequence of '
+              '<= 3 (4) link options of four kinds (rpath rewritten iff the build-tree value differs)')
 LEVEL_NOTE = ('claimed for the mapping kernel: what doppel / patchelf then do on disk is outside; file '
               'names are concrete in the recipe obligations (InstallOutputs keys a dict by file, '
               'hashing would realise symbolic names; names travel through the writers in C01/C04), '
-              'one of {prefix, DESTDIR} is symbolic per obligation; rninja trusted; header '
-              'directories with include patterns and run-time path rewriting are outside')
+              'one of {prefix, DESTDIR} is symbolic per obligation; rninja trusted; matching of '
+              'include patterns against the tree is C11\'s')
 HARNESS = 'vpx.harness.c15'
 FUNCTIONS = ['bfg9000.builtins.install.installify', 'InstallOutputs.add', 'InstallOutputs._add_implicit',
              '_install_files', '_uninstall_files', '_add_install_paths', 'make_install_rule',
